@@ -76,6 +76,16 @@ def gen_cases(tier, seed):
                 cid = "%s-authn-%s-u:%s-i:%s-b:%s" % (lname, issuer.split("//")[1].split(".")[0], uk, ik, bk)
                 cases.append({"id": cid, "sig": [lname, "authn", issuer, uk.split(":")[0] + (":" + uk.split(":")[1] if uk.startswith("near") else ""), ik.split(":")[0], bk],
                               "layout": lname, "type": "authn", "issuer": issuer, "url": url, "index": idx, "pb": pb, "uk": uk, "ik": ik})
+            # the same question through the whole inbound path: the request as text, unsigned or signed by the requester, parsed by an IdP
+            # with / without want_authn_requests_signed, and response_args() on what the parser returned
+            for (uk, url) in urls:
+                if tier == "quick" and uk.startswith("near-miss") and uk not in ("near-miss:trailing-slash", "near-miss:case"):
+                    continue
+                for signed, idpopt in ((0, "default"), (1, "default"), (1, "want-signed"), (0, "want-signed")):
+                    for (ik, idx) in ((("none", None),) if url is not None else (("none", None), ("unknown", "99"))):
+                        cid = "%s-wire-%s-u:%s-i:%s-s%d-%s" % (lname, issuer.split("//")[1].split(".")[0], uk, ik, signed, idpopt)
+                        cases.append({"id": cid, "sig": [lname, "wire", issuer, uk.split(":")[0], ik, signed, idpopt], "layout": lname, "type": "authn", "issuer": issuer,
+                                      "url": url, "index": idx, "pb": None, "uk": uk, "ik": ik, "wire": 1, "signed": signed, "idpopt": idpopt})
             for typ in ("logout", "mni"):
                 for bk, bl in (("default", None), ("post", [POST]), ("redirect", [REDIR]), ("soap", [SOAP]), ("post+redirect", [POST, REDIR]), ("artifact", [ART])):
                     cid = "%s-%s-%s-b:%s" % (lname, typ, issuer.split("//")[1].split(".")[0], bk)
@@ -177,20 +187,23 @@ def run_refresh(case, ctx):
             "evals": counters["refresh_steps"], "sigs": [["refresh", case["k"]]]}
 
 
-def _idp(ctx, lname):
+def _idp(ctx, lname, idpopt="default"):
     def build():
         mds = []
         for eid, d in LAYOUTS[lname].items():
             mds.append(mdgen.entity({"eid": eid, "sp": {"keys": [("signing", 1 if eid == fed.SP_EID else 3)], "acs": d["acs"], "slo": d["slo"], "mni": d["mni"]}}))
-        return fed.make_idp(fed.idp_conf(), mds)
-    return ctx.fedcache.get("idp", [lname], build)
+        idc = fed.idp_conf()
+        if idpopt == "want-signed":
+            idc["service"]["idp"]["want_authn_requests_signed"] = True
+        return fed.make_idp(idc, mds)
+    return ctx.fedcache.get("idp", [lname, idpopt], build)
 
 
 def run_case(case, ctx):
     from saml2_tophat import samlp, saml
     if case.get("type") == "refresh":
         return run_refresh(case, ctx)
-    idp = _idp(ctx, case["layout"])
+    idp = _idp(ctx, case["layout"], case.get("idpopt", "default"))
     layout = LAYOUTS[case["layout"]]
     issuer = saml.Issuer(text=case["issuer"])
     viol = []
@@ -210,7 +223,23 @@ def run_case(case, ctx):
                                         name_id=saml.NameID(text="abc"))
         service = "mni"
         kwargs = {"bindings": case["bindings"]} if case["bindings"] else {}
+    wire_note = ""
     try:
+        if case.get("wire"):
+            import base64
+            from vlib import xmlkit as xk
+            from saml2_tophat.time_util import instant
+            req.destination = fed.SSO_POST
+            req.issue_instant = instant()
+            text = req.to_string().decode("utf-8")
+            if case["signed"]:
+                ki = {fed.SP_EID: 1, fed.SP2_EID: 3}.get(case["issuer"], 9)
+                text = xk.sign_element(text, xk.SAMLP, "AuthnRequest", "id-req-9", fed.key(ki)[0], "rsa-sha256", fed.cert_body(ki))
+            parsed = idp.parse_authn_request(base64.b64encode(text.encode("utf-8")).decode(), POST)
+            if parsed is None or getattr(parsed, "message", None) is None:
+                raise ValueError("request not handed to the application")
+            req = parsed.message
+            wire_note = " [as text, %s, idp %s]" % ("signed by the requester" if case["signed"] else "unsigned", case["idpopt"])
         info = idp.response_args(req, **kwargs)
         exc = None
     except Exception as e:
@@ -221,7 +250,7 @@ def run_case(case, ctx):
         reg_by_binding.setdefault(ent[0], []).append(ent)
     desc = "%s %s issuer=%s url=%r index=%r protocol_binding=%s bindings=%s" % (
         case["layout"], case["type"], case["issuer"], case.get("url"), case.get("index"), (case.get("pb") or "-").split(":")[-1],
-        [b.split(":")[-1] for b in (case.get("bindings") or [])])
+        [b.split(":")[-1] for b in (case.get("bindings") or [])]) + wire_note
     if info is None:
         outcome = "refused:" + type(exc).__name__
     else:
